@@ -495,6 +495,42 @@ pub fn reference_outline(spec: &PathSpec, n: usize) -> (Vec<(Point, Point)>, f64
     (edges, dev)
 }
 
+pub const HEADER_DEV: &str =
+    "From Coq Require Import QArith.\nFrom LV Require Import Base.Prelude Model.Bezier Checker.Region Checker.CurveDev Run.C09.\nOpen Scope Q_scope.";
+
+/// the curves of a path with the uniform samples `reference_outline` takes of them, as cases for the
+/// verified curve-deviation checker: EVERY point of each curve must be within the claimed chord
+/// deviation of the sampled polyline (this checks lyon's `sample` against the rational model and the
+/// deviation bound used for the band, independently of lyon)
+pub fn reference_curve_cases(spec: &PathSpec, n: usize, dev: f64, id0: usize) -> Vec<String> {
+    use lyon_path::geom::{CubicBezierSegment, QuadraticBezierSegment};
+    let tol = dev * 1.001 + 1e-5;
+    let tol2 = gq64(tol * tol);
+    let ts = glist((1..=n).map(|i| if i == n { "1".to_string() } else { gq32(i as f32 / n as f32) }));
+    let mut out = Vec::new();
+    for s in &spec.subs {
+        let mut cur = s.start;
+        for g in &s.segs {
+            match g {
+                Seg::Line(p, _) => cur = *p,
+                Seg::Quad(c, p, _) => {
+                    let q = QuadraticBezierSegment { from: cur, ctrl: *c, to: *p };
+                    let pts = glist(std::iter::once(gp(cur)).chain((1..=n).map(|i| gp(if i == n { *p } else { q.sample(i as f32 / n as f32) }))));
+                    out.push(format!("(QD {} {} {} (mkQuad {} {} {}) {} {})", id0, tol2, tol2, gp(cur), gp(*c), gp(*p), ts, pts));
+                    cur = *p;
+                }
+                Seg::Cubic(c1, c2, p, _) => {
+                    let q = CubicBezierSegment { from: cur, ctrl1: *c1, ctrl2: *c2, to: *p };
+                    let pts = glist(std::iter::once(gp(cur)).chain((1..=n).map(|i| gp(if i == n { *p } else { q.sample(i as f32 / n as f32) }))));
+                    out.push(format!("(CD {} {} {} (mkCubic {} {} {} {}) {} {})", id0, tol2, tol2, gp(cur), gp(*c1), gp(*c2), gp(*p), ts, pts));
+                    cur = *p;
+                }
+            }
+        }
+    }
+    out
+}
+
 fn to64(e: &[(Point, Point)]) -> Vec<((f64, f64), (f64, f64))> {
     e.iter().map(|(a, b)| ((a.x as f64, a.y as f64), (b.x as f64, b.y as f64))).collect()
 }
@@ -552,6 +588,8 @@ pub fn main_c03(args: &Args) -> std::io::Result<()> {
     let mut st = Stats::default();
     let mut w = ShardWriter::new(&args.out, "c03_cases", args.shards, HEADER, "bad_cases");
     w.disabled = args.direct_only();
+    let mut wd = ShardWriter::new(&args.out, "c03dev_cases", args.shards, HEADER_DEV, "dev_bad_cases");
+    wd.disabled = args.direct_only();
     let mut idx = std::fs::File::create(args.out.join("c03_index.txt"))?;
     let mut rng = Rng::new(args.seed ^ 0x03);
     let n = if args.thorough() { 5000 } else { 600 };
@@ -617,6 +655,10 @@ pub fn main_c03(args: &Args) -> std::io::Result<()> {
                     writeln!(idx, "{}\t{}", id, label).ok();
                     w.push(case_literal(id, rule, band_c, &coarse, &out));
                     st.inc("cases_for_verified_checker");
+                    for c in reference_curve_cases(&spec, 12, dev, id) {
+                        wd.push(c);
+                        st.inc("reference_curves_for_verified_deviation_checker");
+                    }
                     id += 1;
                 }
             }
@@ -917,5 +959,6 @@ pub fn main_c03(args: &Args) -> std::io::Result<()> {
         }
     }
     w.finish()?;
+    wd.finish()?;
     st.write(&args.out.join("c03_stats.json"))
 }
